@@ -393,9 +393,10 @@ theorem server_keeps_flow_id (ops : List SOp) (i : Nat) (d' d : Dgram) (h p pl :
         intro f0 h0 j' f hf
         by_cases hjj : j = j'
         · subst hjj
-          rw [h0] at hf; cases hf
+          have hf0 : f0 = f := by rw [h0] at hf; exact Option.some.inj hf
+          subst hf0
           have hlt : j < s.fwds.length := (List.getElem?_eq_some_iff.mp h0).1
-          exact ⟨_, by simp [List.getElem?_set_self hlt], rfl⟩
+          exact ⟨{ f0 with alive := false }, by simp [List.getElem?_set_self hlt], rfl⟩
         · exact ⟨f, by rw [List.getElem?_set_ne hjj]; exact hf, rfl⟩
       split
       · rename_i f0 h0
@@ -440,7 +441,7 @@ theorem server_keeps_flow_id (ops : List SOp) (i : Nat) (d' d : Dgram) (h p pl :
   rw [hf1] at hf2; cases hf2
   exact ⟨hk2.symm.trans hk1, hdat⟩
 
-open Penguin.Socks in
+open Penguin.Socks Penguin.Lemmas.Socks in
 /-- The SOCKS5 reply: the datagram the client builds for an entry (`send_udp_relay_response`,
     `handle_remote/socks.rs`: `udp_relay_response(target, data)`) is, for EVERY well-formed socket
     address `target` and every payload, parsed by a conforming RFC 1928 client to that address, that
